@@ -1,4 +1,243 @@
 package nc
 
-// runThorough adds the thorough-tier work of a property (self-tests, whole-program cross-checks).
-func runThorough(c *Ctx, id string) {}
+import (
+	"bytes"
+	"fmt"
+	"io"
+	"io/fs"
+	"os"
+	"os/exec"
+	"path/filepath"
+	"sort"
+	"strings"
+	"sync"
+)
+
+// Thorough tier.
+//
+// The rules of the quick tier already quantify over every path of the current source, so there is no
+// sampling depth to increase. What the thorough tier adds is a both-ways test of the rules themselves
+// on variants of the *current* working tree, each analysed by a fresh run of this same binary on a
+// scratch copy (nothing is executed, the copies are removed at once):
+//
+//   - every seeded change kept under <verif>/seeded/<property>-n (a confirmed property-breaking edit):
+//     the property's rules must report a violation that the unchanged tree does not have;
+//   - every repaired defect of the property listed under "fixed" in known_findings.json: the fix commit
+//     is reverse-applied, and the rules must report the defect again;
+//   - every behaviour-preserving edit kept under <verif>/benign/<property>-n: the rules must stay
+//     silent (no violation beyond those of the unchanged tree).
+//
+// A variant whose patch no longer applies to the current tree is skipped and listed. The outcome is
+// recorded in the evidence (coverage.self_test) and printed; it does not change the verdict on the
+// current tree, which is decided by the rules alone.
+
+type variant struct {
+	name    string
+	kind    string // seed | fix | benign
+	patch   []byte
+	reverse bool
+	commit  string
+}
+
+func runThorough(c *Ctx, id string) {
+	st := &SelfTestResult{}
+	c.R.SelfTest = st
+	verif := c.Opt.Verif
+	var vs []variant
+	for _, kind := range []string{"seeded", "benign"} {
+		dirs, _ := filepath.Glob(filepath.Join(verif, kind, id+"-*"))
+		sort.Strings(dirs)
+		for _, d := range dirs {
+			b, err := os.ReadFile(filepath.Join(d, "patch.diff"))
+			if err != nil {
+				continue
+			}
+			k := "seed"
+			if kind == "benign" {
+				k = "benign"
+			}
+			vs = append(vs, variant{name: filepath.Base(d), kind: k, patch: b})
+		}
+	}
+	known, _ := LoadKnown(filepath.Join(verif, "known_findings.json"))
+	if known != nil {
+		for _, f := range known.Fixed {
+			if f.Property != id || f.Commit == "" {
+				continue
+			}
+			out, err := exec.Command("git", "-C", c.P.RepoDir, "diff", f.Commit+"^", f.Commit, "--", ".", ":(exclude)*_test.go").Output()
+			if err != nil || len(out) == 0 {
+				st.Skipped++
+				st.SkippedIDs = append(st.SkippedIDs, "fix "+f.Commit+" ("+f.Defect+"): commit not available in the repository")
+				continue
+			}
+			vs = append(vs, variant{name: "revert-" + f.Commit + "-" + f.Defect, kind: "fix", patch: out, reverse: true, commit: f.Commit})
+		}
+	}
+	if len(vs) == 0 {
+		c.R.Note("thorough: no variants to self-test for %s", id)
+		return
+	}
+	self, err := os.Executable()
+	if err != nil {
+		c.R.Note("thorough: cannot locate own binary: %v", err)
+		return
+	}
+	// violations of the unchanged tree (there should be none beyond known findings)
+	base := map[string]bool{}
+	for _, o := range c.R.Obls {
+		if o.Status != "discharged" {
+			base[o.Key] = true
+		}
+	}
+	type result struct {
+		v       variant
+		applied bool
+		keys    []string
+		err     string
+	}
+	results := make([]result, len(vs))
+	sem := make(chan struct{}, 6)
+	var wg sync.WaitGroup
+	for i := range vs {
+		wg.Add(1)
+		go func(i int) {
+			defer wg.Done()
+			sem <- struct{}{}
+			defer func() { <-sem }()
+			v := vs[i]
+			res := result{v: v}
+			defer func() { results[i] = res }()
+			tmp, err := os.MkdirTemp("", "nutcheck-variant-")
+			if err != nil {
+				res.err = err.Error()
+				return
+			}
+			defer os.RemoveAll(tmp)
+			if err := copyTree(c.P.RepoDir, tmp); err != nil {
+				res.err = "copy: " + err.Error()
+				return
+			}
+			args := []string{"apply", "--whitespace=nowarn"}
+			if v.reverse {
+				args = append(args, "-R")
+			}
+			cmd := exec.Command("git", args...)
+			cmd.Dir = tmp
+			cmd.Stdin = bytes.NewReader(v.patch)
+			// outside a repository git apply works on the directory tree
+			cmd.Env = append(os.Environ(), "GIT_CEILING_DIRECTORIES="+filepath.Dir(tmp), "GIT_DIR=/nonexistent")
+			if out, err := cmd.CombinedOutput(); err != nil {
+				// a later change touched the same lines: fall back to the files as they were before the fix
+				if !v.reverse || !restoreParentFiles(c.P.RepoDir, tmp, v.commit) {
+					res.err = "patch does not apply: " + strings.TrimSpace(firstLine(string(out)))
+					return
+				}
+				res.v.name += " (whole files of the parent commit)"
+			}
+			res.applied = true
+			run := exec.Command(self, "-repo", tmp, "-verif", verif, "-property", id, "-tier", "quick", "-no-evidence")
+			out, _ := run.CombinedOutput()
+			for _, l := range strings.Split(string(out), "\n") {
+				if strings.HasPrefix(l, "  key=") {
+					k := strings.TrimPrefix(l, "  key=")
+					if !base[k] {
+						res.keys = append(res.keys, k)
+					}
+				}
+			}
+		}(i)
+	}
+	wg.Wait()
+	for _, r := range results {
+		switch {
+		case !r.applied:
+			st.Skipped++
+			st.SkippedIDs = append(st.SkippedIDs, r.v.name+": "+r.err)
+		case r.v.kind == "benign":
+			st.Benign++
+			if len(r.keys) == 0 {
+				st.BenignOK++
+			} else {
+				st.Failures = append(st.Failures, fmt.Sprintf("benign edit %s raises %s", r.v.name, short(strings.Join(r.keys, "; "), 300)))
+			}
+		default:
+			st.Seeds++
+			if len(r.keys) > 0 {
+				st.Caught++
+				st.Detail = append(st.Detail, fmt.Sprintf("%s: reported by %s", r.v.name, short(strings.Join(r.keys, "; "), 300)))
+			} else {
+				st.Failures = append(st.Failures, fmt.Sprintf("%s %s is not reported by the rules of %s", r.v.kind, r.v.name, id))
+			}
+		}
+	}
+	fmt.Printf("%s thorough self-test: breaking variants %d reported / %d applied, benign variants %d silent / %d applied, %d skipped\n",
+		id, st.Caught, st.Seeds, st.BenignOK, st.Benign, st.Skipped)
+	for _, f := range st.Failures {
+		fmt.Printf("  SELFTEST-NOTE: %s\n", f)
+	}
+}
+
+// restoreParentFiles replaces, in the scratch copy, every non-test file changed by commit with its
+// content in the parent commit.
+func restoreParentFiles(repo, tmp, commit string) bool {
+	out, err := exec.Command("git", "-C", repo, "diff", "--name-only", commit+"^", commit, "--", ".", ":(exclude)*_test.go").Output()
+	if err != nil {
+		return false
+	}
+	n := 0
+	for _, f := range strings.Fields(string(out)) {
+		b, err := exec.Command("git", "-C", repo, "show", commit+"^:"+f).Output()
+		if err != nil {
+			return false
+		}
+		if err := os.WriteFile(filepath.Join(tmp, f), b, 0o644); err != nil {
+			return false
+		}
+		n++
+	}
+	return n > 0
+}
+
+func firstLine(s string) string {
+	if i := strings.IndexByte(s, '\n'); i >= 0 {
+		return s[:i]
+	}
+	return s
+}
+
+// copyTree copies the working tree (without .git and without untracked seed output) to dst.
+func copyTree(src, dst string) error {
+	return filepath.WalkDir(src, func(path string, d fs.DirEntry, err error) error {
+		if err != nil {
+			return err
+		}
+		rel, _ := filepath.Rel(src, path)
+		if rel == "." {
+			return nil
+		}
+		if d.IsDir() {
+			if d.Name() == ".git" || rel == "OUT" {
+				return filepath.SkipDir
+			}
+			return os.MkdirAll(filepath.Join(dst, rel), 0o755)
+		}
+		if !d.Type().IsRegular() {
+			return nil
+		}
+		in, err := os.Open(path)
+		if err != nil {
+			return err
+		}
+		defer in.Close()
+		out, err := os.Create(filepath.Join(dst, rel))
+		if err != nil {
+			return err
+		}
+		if _, err := io.Copy(out, in); err != nil {
+			out.Close()
+			return err
+		}
+		return out.Close()
+	})
+}
